@@ -7,11 +7,11 @@ from checks import loadfam
 
 def _key(c, r):
     raw = c["abs"]["raw"]
-    return "default=%s;locales=%s;ns=%s;inherits=%s;variant=%s/%s/%s/%s;drop=%s;%s" % (
+    return "default=%s;locales=%s;ns=%s;inherits=%s;variant=%s/%s/%s/%s/%s;drop=%s;%s" % (
         raw["default"], raw["locales"]["v"] if raw["locales"]["p"] else "absent",
         raw["namespaces"]["v"] if raw["namespaces"]["p"] else "absent",
         raw["inherits"]["v"] if raw["inherits"]["p"] else "absent",
-        raw["section"], raw["dir"], raw["pre"], raw["post"], c["abs"]["drop"], sorted(r["tags"])[0])
+        raw["section"], raw["dir"], raw["pre"], raw.get("hdr", "plain"), raw["post"], c["abs"]["drop"], sorted(r["tags"])[0])
 
 
 def check(run):
